@@ -117,8 +117,8 @@ Record wf_pkt (off : Z) (p : l4pkt) : Prop := {
   wf_len : off + 2 <= len (seg p) /\ len (seg p) < (if ipv6 p then 2^32 else 2^16);
   wf_field : field p = from_be (slice (seg p) off (off + 2)) }.
 
-Definition spec_pseudo (p : l4pkt) : bytes :=
-  if ipv6 p then pseudo6 (ip_src p) (ip_dst p) (proto p) (len (seg p))
+Definition spec_pseudo (upper : Z) (p : l4pkt) : bytes :=
+  if ipv6 p then pseudo6 (ip_src p) (ip_dst p) upper (len (seg p))
   else pseudo4 (ip_src p) (ip_dst p) (proto p) (len (seg p)).
 
 Lemma to_be_total_1 n : 0 <= n < 256 -> to_be_total n 1 = [n].
@@ -129,24 +129,23 @@ Lemma to_be_total_4 n : 0 <= n < 4294967296 ->
   to_be_total n 4 = [n / 16777216; (n / 65536) mod 256; (n / 256) mod 256; n mod 256].
 Proof. intros. unfold to_be_total. change (Z.to_nat 4) with 4%nat. cbn [to_be_fuel]. repeat (f_equal; try lia). Qed.
 
-Lemma pseudo_header_spec off p : wf_pkt off p -> 0 <= off -> pseudo_header p = Ok (spec_pseudo p).
+Lemma pseudo_header_spec off upper p : wf_pkt off p -> 0 <= off -> 0 <= upper < 256 -> pseudo_header upper p = Ok (spec_pseudo upper p).
 Proof.
-  intros W Hoff. destruct W as [Hs Hd Hg [Hl1 Hl2] Hp [Hlen1 Hlen2] _]. unfold pseudo_header, spec_pseudo.
+  intros W Hoff Hup. destruct W as [Hs Hd Hg [Hl1 Hl2] Hp [Hlen1 Hlen2] _]. unfold pseudo_header, spec_pseudo.
   destruct (ipv6 p).
   - change (2^32) with 4294967296 in Hlen2.
     rewrite (to_be_ok _ 4) by (change (256^4) with 4294967296; lia). cbn [bind].
-    rewrite (to_be_ok _ 1) by (change (256^1) with 256; lia). cbn [bind].
-    rewrite to_be_total_4, to_be_total_1 by lia. unfold pseudo6. reflexivity.
+    rewrite to_be_total_4 by lia. unfold pseudo6. reflexivity.
   - change (2^16) with 65536 in Hlen2.
     rewrite (to_be_ok _ 1) by (change (256^1) with 256; lia). cbn [bind].
     rewrite (to_be_ok _ 2) by (change (256^2) with 65536; lia). cbn [bind].
     rewrite to_be_total_2, to_be_total_1 by lia. unfold pseudo4. reflexivity.
 Qed.
 
-Lemma spec_pseudo_props off p : wf_pkt off p -> 0 <= off ->
-  bytes_ok (spec_pseudo p) /\ Z.even (len (spec_pseudo p)) = true /\ len (spec_pseudo p) <= 40.
+Lemma spec_pseudo_props off upper p : wf_pkt off p -> 0 <= off -> 0 <= upper < 256 ->
+  bytes_ok (spec_pseudo upper p) /\ Z.even (len (spec_pseudo upper p)) = true /\ len (spec_pseudo upper p) <= 40.
 Proof.
-  intros W Hoff. destruct W as [Hs Hd Hg [Hl1 Hl2] Hp [Hlen1 Hlen2] _]. unfold spec_pseudo.
+  intros W Hoff Hup. destruct W as [Hs Hd Hg [Hl1 Hl2] Hp [Hlen1 Hlen2] _]. unfold spec_pseudo.
   destruct (ipv6 p); unfold pseudo6, pseudo4; rewrite !len_app, Hl1, Hl2.
   - change (2^32) with 4294967296 in Hlen2. split; [|split; [reflexivity|cbn; lia]].
     apply bytes_ok_app; [assumption|]. apply bytes_ok_app; [assumption|]. repeat constructor; lia.
@@ -169,15 +168,15 @@ Proof.
   - unfold len. rewrite firstn_length. unfold len in Hl. lia.
 Qed.
 
-Theorem check_is_rfc1071 off p : wf_pkt off p -> 0 <= off -> Z.even off = true ->
-  calculate_checksum off p = Ok (checksum_valid (spec_pseudo p) (seg p)).
+Theorem check_is_rfc1071 off upper p : wf_pkt off p -> 0 <= off -> Z.even off = true -> 0 <= upper < 256 ->
+  calculate_checksum off upper p = Ok (checksum_valid (spec_pseudo upper p) (seg p)).
 Proof.
-  intros W Hoff Hev. pose proof (pseudo_header_spec off p W Hoff) as Hph.
-  destruct (spec_pseudo_props off p W Hoff) as (Pok & Pev & Plen).
+  intros W Hoff Hev Hup. pose proof (pseudo_header_spec off upper p W Hoff Hup) as Hph.
+  destruct (spec_pseudo_props off upper p W Hoff Hup) as (Pok & Pev & Plen).
   destruct W as [Hs Hd Hg [Hl1 Hl2] Hp [Hlen1 Hlen2] Hf].
   unfold calculate_checksum. rewrite Hph. cbn [bind].
   destruct (seg_split off (seg p) Hoff Hlen1) as (c1 & c2 & Hsplit & Hfld & HlenA).
-  remember (slice (seg p) 0 off) as A eqn:EA. remember (slice_from (seg p) (off + 2)) as B eqn:EB. remember (spec_pseudo p) as P eqn:EP.
+  remember (slice (seg p) 0 off) as A eqn:EA. remember (slice_from (seg p) (off + 2)) as B eqn:EB. remember (spec_pseudo upper p) as P eqn:EP.
   assert (HokA: bytes_ok A) by (rewrite EA; apply bytes_ok_slice; assumption).
   assert (HokB: bytes_ok B) by (rewrite EB, slice_from_eq; apply Forall_skipn'; assumption).
   assert (Hc: 0 <= c1 < 256 /\ 0 <= c2 < 256).
@@ -226,5 +225,5 @@ Example c11_example_packet :
   let p := {| ipv6 := false; ip_src := [192;168;0;1]; ip_dst := [192;168;0;2]; proto := 6;
               seg := [0x01;0xbb; 0xc0;0x00; 0;0;0;1; 0;0;0;1; 0x50;0x18; 0x20;0x00; 0x6e;0x4d; 0;0; 0x68;0x69];
               field := 0x6e4d |} in
-  calculate_checksum_tcp p = Ok (checksum_valid (spec_pseudo p) (seg p)).
+  calculate_checksum_tcp p = Ok (checksum_valid (spec_pseudo 6 p) (seg p)).
 Proof. vm_compute. reflexivity. Qed.
